@@ -12,7 +12,7 @@ Proof. reflexivity. Qed.
 Lemma escape_is_contextfree_on_probe : vary_esc_contextfree_probe = true.
 Proof. reflexivity. Qed.
 
-(* every byte is emitted either as itself (never '%', never '"') or as a %XX triplet that decodes to it *)
+(* every byte is emitted either as itself (never a percent sign, never a double quote) or as a %XX triplet that decodes to it *)
 Definition esc_entry_ok (c : N) : bool :=
   (c =? 0) || (esc_item_rt c (tbl_entry vary_esc_tbl c) && forallb (fun x => negb (x =? 34)) (tbl_entry vary_esc_tbl c)).
 Lemma esc_table_ok : forallb esc_entry_ok all_bytes = true.
@@ -80,10 +80,15 @@ Qed.
 
 (* what Squid reads for a field with the given (C string) line values, in order: undefined when there is
    no line; otherwise the values joined by ", " after dropping the leading empty lines *)
+Fixpoint drop_nil (vals : list bytes) : list bytes :=
+  match vals with
+  | [] :: r => drop_nil r
+  | _ => vals
+  end.
 Definition joined_spec (vals : list bytes) : sstr :=
   match vals with
   | [] => None
-  | _ => Some (join_list (drop_while is_nil vals))
+  | _ => Some (join_list (drop_nil vals))
   end.
 
 Definition add_all (s : sstr) (vals : list bytes) : sstr := fold_left str_list_add vals s.
@@ -103,15 +108,15 @@ Proof.
 Qed.
 
 Lemma add_all_fresh s vals : s = None \/ s = Some [] ->
-  add_all s (map cstr vals) = match vals with [] => s | _ => Some (join_list (drop_while is_nil (map cstr vals))) end.
+  add_all s (map cstr vals) = match vals with [] => s | _ => Some (join_list (drop_nil (map cstr vals))) end.
 Proof.
   revert s. induction vals as [|v vals IH]; intros s Hs; [reflexivity|].
   cbn [map add_all fold_left].
   assert (E : str_list_add s (cstr v) = Some (cstr v)) by (destruct Hs; subst s; cbn [str_list_add]; now rewrite cstr_idem).
-  rewrite E. cbn [drop_while]. destruct (cstr v) as [|c t] eqn:Ev.
-  - cbn [is_nil]. change (fold_left str_list_add (map cstr vals) (Some [])) with (add_all (Some []) (map cstr vals)).
+  rewrite E. cbn [drop_nil]. destruct (cstr v) as [|c t] eqn:Ev.
+  - change (fold_left str_list_add (map cstr vals) (Some [])) with (add_all (Some []) (map cstr vals)).
     rewrite (IH (Some [])) by now right. destruct vals; reflexivity.
-  - cbn [is_nil]. change (fold_left str_list_add (map cstr vals) (Some (c :: t))) with (add_all (Some (c :: t)) (map cstr vals)).
+  - change (fold_left str_list_add (map cstr vals) (Some (c :: t))) with (add_all (Some (c :: t)) (map cstr vals)).
     rewrite add_all_nonempty, join_list_sepcat. reflexivity.
 Qed.
 
@@ -223,7 +228,7 @@ Proof.
   destruct Hin as [Hin|Hin]; [subst it; rewrite list_eqb_refl in E; discriminate|]. apply IH, Hin.
 Qed.
 
-(* the tail after a value is empty or starts with a comma: it cannot be mistaken for ="..." *)
+(* the tail after a value is empty or starts with a comma: it cannot be mistaken for an equals-quoted value *)
 Lemma tail_false_head items hs : tail_str false items hs = [] \/ exists r, tail_str false items hs = 44 :: r.
 Proof. destruct items as [|it r]; [now left|right]. cbn [tail_str app]. eauto. Qed.
 
